@@ -2,7 +2,7 @@
    model side of the correspondence lives here (in Gallina); the OCaml driver is generic. *)
 From Coq Require Import Strings.String.
 From ZipV Require Import Base.Bytes Base.Outcome Gen.GenLib Gen.TypesGen Model.Dos Extract.Obs.
-From ZipV Require Import Spec.PathSpec Model.Path Spec.Utf8 Model.Cp437 Gen.CompressionGen Model.Readers Model.Reader Spec.Crc32Spec Model.Stream Spec.Aes Spec.Sha1 Spec.Fs Model.Extract Model.Writer.
+From ZipV Require Import Spec.PathSpec Model.Path Spec.Utf8 Model.Cp437 Gen.CompressionGen Model.Readers Model.Reader Spec.Crc32Spec Model.Stream Spec.Aes Spec.Sha1 Spec.Fs Model.Extract Model.Writer Model.Clones.
 From Coq Require Import ZArith.
 Open Scope string_scope.
 Open Scope N_scope.
@@ -523,6 +523,42 @@ Definition dispatch_reader (op : bytes) (args : list arg) : option obs :=
   else if is_op op "extract" then
     match args with
     | [AB data; AN mode] => Some (extract_obs data mode)
+    | _ => None end
+  else if is_op op "clones" then
+    match args with
+    | AB data :: AN haspw :: AB pw :: script =>
+        match open data with
+        | Err e => Some (OL [T "OpenErr"; err_obs e])
+        | Panic p => Some (OL [T "PANIC"; site_obs p])
+        | Ok ar =>
+            let fix parse (fuel : nat) (l : list arg) : option (list (nat * cop)) :=
+              match fuel with O => None | Datatypes.S fu =>
+              match l with
+              | [] => Some []
+              | AN h :: AN o :: AN x :: r =>
+                  match parse fu r with
+                  | None => None
+                  | Some t => Some ((N.to_nat h, if o =? 0 then COpen x (if haspw =? 0 then None else Some pw)
+                                                 else if o =? 1 then CRead x else CClose) :: t)
+                  end
+              | _ => None
+              end end in
+            match parse (Datatypes.S (length script)) script with
+            | None => None
+            | Some sched =>
+                Some (OL (map (fun ko =>
+                   match snd ko with
+                   | OOpened f ds => OL [T "Ok"; OB (f_name f); ON (f_usize f); ON (f_crc f); ON ds]
+                   | OBadPassword => T "InvalidPassword"
+                   | OFail e => OL [T "Err"; err_obs e]
+                   | OPanic p => OL [T "PANIC"; site_obs p]
+                   | OData b => OL [T "Ok"; OB b]
+                   | OOpaque => T "SKIP"
+                   | ONoEntry => T "NOENTRY"
+                   | OClosed => T "closed"
+                   end) (run_sched dummy_kdf dummy_blk dummy_mac crc32 ar [] [] sched)))
+            end
+        end
     | _ => None end
   else if is_op op "wprog" then Some (wprog_obs args)
   (* C08: the header writers on arbitrary 64-bit values.
